@@ -40,6 +40,7 @@ LEAN_MODULES = ["VgiVerif.Proofs.C39"]
 OBLIGATIONS = [
     "VgiVerif.C39.C39_shapes",
     "VgiVerif.C39.C39_faithful",
+    "VgiVerif.C39.C39_describe_hash",
     "VgiVerif.C39.C39_exempt",
     "VgiVerif.C39.C39_insensitive",
     "VgiVerif.C39.C39_stable",
